@@ -170,15 +170,19 @@ def check(run, replay):
         cases += c01.gen_pairs(run.rng, run.tier, 230 if run.tier == "quick" else 1300, [True])
         if run.tier == "thorough":
             cases += c01.exhaustive_pairs(True)
-        seeds = 20 if run.tier == "quick" else 300
+        seeds = 20 if run.tier == "quick" else 100
     for c in cases:
         c["flag"] = True
 
     # planted family: scores from the real code; expected values from the Python transcription of the model (py_terms);
     # the first seeds' low-cardinality members additionally go through the Coq model with the ordinary cases
     pl = []
-    for s in range(seeds):
-        X, inf, noise = planted(run.rng)
+    big_seeds = 4 if (run.tier == "thorough" and seeds) else 0
+    for s in range(seeds + big_seeds):
+        nn = 4000 if s < seeds else 32768
+        X, inf, noise = planted(run.rng, nn)
+        if nn != 4000:
+            noise[4000] = [run.rng.randrange(nn) for _ in range(nn)]       # the top cardinality is n itself
         feats = [("inf", inf)] + [("noise%d" % k, noise[k]) for k in CARDS]
         for name, Yf in feats:
             for fl in (True, False):
@@ -258,7 +262,7 @@ def check(run, replay):
         stat = {}
         for fl in (True, False):
             wins, margins, worst_card = 0, [], {}
-            for s in range(seeds):
+            for s in range(seeds + big_seeds):
                 si = score.get((s, "inf", fl))
                 ns = {k: score.get((s, "noise%d" % k, fl)) for k in CARDS}
                 if si is None or any(v is None for v in ns.values()):
@@ -270,10 +274,10 @@ def check(run, replay):
                     if v >= si:
                         worst_card[k] = worst_card.get(k, 0) + 1
             stat["corrected" if fl else "uncorrected"] = {
-                "seeds": seeds, "informative_outranks_all_noise": int(wins),
+                "seeds": seeds + big_seeds, "informative_outranks_all_noise": int(wins),
                 "min_margin": min(margins) if margins else None, "noise_cardinalities_that_won": worst_card}
         run.cov["planted_signal_supporting_statistic"] = dict(
-            stat, n=4000, cardinalities=CARDS,
+            stat, n=4000, cardinalities=CARDS, extra_seeds_at_n_32768_top_cardinality_n=big_seeds,
             note="SUPPORTING TEST, not a proof and not a pass/fail criterion: the ranking clause of C03 is statistical "
                  "(DESIGN section 3, C03 'partial'); only a break of the exact identity on these pairs is a violation")
     run.cov["input_distribution"] = hist
